@@ -343,6 +343,134 @@ Proof.
     intros y [Hy|Hy]; [subst; apply N.eqb_neq; auto | auto].
 Qed.
 
+(* ---- an id denotes one key object during a manager's lifetime ------------ *)
+
+(* the id an add returns was not unavailable before (so it never named a key of this
+   manager, present or deleted) *)
+Lemma add_id_fresh s o id :
+  is_add o = true -> snd (step s o) = RId id -> ~ In id (unavail (smgr s)).
+Proof.
+  destruct o as [t|raw|req k|req k opts|i|i|i|i| |n]; simpl; try discriminate; intros _.
+  - destruct t; simpl; try discriminate; unfold add_fresh;
+      destruct (new_random_id _ _ _) as [[[[x u'] t'] d]|] eqn:R; simpl; try discriminate;
+      intros H; inversion H; subst; apply new_random_id_spec in R; tauto.
+  - unfold add_fresh; destruct (new_random_id _ _ _) as [[[[x u'] t'] d]|] eqn:R; simpl; try discriminate;
+      intros H; inversion H; subst; apply new_random_id_spec in R; tauto.
+  - destruct req as [i|].
+    + destruct (mem i _) eqn:M; simpl; try discriminate. intros H; inversion H; subst.
+      intros Hin. apply mem_In in Hin. congruence.
+    + unfold add_fresh; destruct (new_random_id _ _ _) as [[[[x u'] t'] d]|] eqn:R; simpl; try discriminate;
+      intros H; inversion H; subst; apply new_random_id_spec in R; tauto.
+  - destruct (apply_opts req _ opts) as [p|]; simpl; try discriminate.
+    destruct (status_eqb (p_st p) UnknownStatus); simpl; try discriminate.
+    destruct (p_prim p && negb (status_eqb (p_st p) Enabled)); simpl; try discriminate.
+    destruct (p_has p).
+    + destruct (mem (p_fixed p) _) eqn:M; simpl; try discriminate. intros H; inversion H; subst.
+      intros Hin. apply mem_In in Hin. congruence.
+    + destruct (new_random_id _ _ _) as [[[[x u'] t'] d]|] eqn:R; simpl; try discriminate;
+      intros H; inversion H; subst; apply new_random_id_spec in R; tauto.
+Qed.
+
+Lemma in_map_kp e l : In (kp e) (map kp l) -> exists e0, In e0 l /\ kp e0 = kp e.
+Proof. intros H. apply in_map_iff in H. destruct H as (e0 & A & B). exists e0; auto. Qed.
+
+(* every entry after a step (other than NewManagerFromHandle) either continues an entry
+   that was there before, with the same id, requirement and key object, or carries an id
+   that was not unavailable before *)
+Lemma step_entry_origin s o e' :
+  (forall k, o <> OFromHandle k) ->
+  In e' (ents (smgr (fst (step s o)))) ->
+  (exists e, In e (ents (smgr s)) /\ kp e = kp e') \/ ~ In (eid e') (unavail (smgr s)).
+Proof.
+  intros Hk Hin. pose proof (step_keyparts s o) as K. cbv zeta in K.
+  pose proof (add_id_fresh s o) as Fr.
+  assert (Same : map kp (ents (smgr (fst (step s o)))) = map kp (ents (smgr s)) ->
+                 exists e, In e (ents (smgr s)) /\ kp e = kp e').
+  { intros E. apply in_map_kp. rewrite <- E. apply in_map. exact Hin. }
+  assert (App : forall id, is_add o = true /\
+                 map kp (ents (smgr (fst (step s o)))) = map kp (ents (smgr s)) ++ [added_kp o id] ->
+                 snd (step s o) = RId id ->
+                 (exists e, In e (ents (smgr s)) /\ kp e = kp e') \/ ~ In (eid e') (unavail (smgr s))).
+  { intros id [A E] R. assert (H : In (kp e') (map kp (ents (smgr s)) ++ [added_kp o id])).
+    { rewrite <- E. apply in_map. exact Hin. }
+    apply in_app_iff in H. destruct H as [H|[H|[]]].
+    - left. apply in_map_kp. exact H.
+    - right. assert (eid e' = id).
+      { unfold kp in H. destruct o as [t|raw|req k|req k opts|i|i|i|i| |n]; simpl in *; try discriminate;
+          try destruct t; try destruct raw; try destruct req; inversion H; auto. }
+      subst id. apply Fr; auto. }
+  destruct (snd (step s o)) as [id| | |h| |] eqn:R.
+  - destruct o as [t|raw|req k|req k opts|i|i|i|i| |n]; rewrite R in K;
+      try (apply (App id); [exact K|reflexivity]);
+      try (destruct K as [X _]; discriminate X).
+  - destruct o as [t|raw|req k|req k opts|i|i|i|i| |n]; rewrite R in K; try (left; apply Same; exact K).
+    + left. rewrite K in Hin. exists e'. split; auto. eapply delete_first_incl; eauto.
+    + exfalso. eapply Hk; eauto.
+  - destruct o; rewrite R in K; left; apply Same; exact K.
+  - destruct o; rewrite R in K; left; apply Same; exact K.
+  - destruct o; rewrite R in K; left; apply Same; exact K.
+  - destruct o; rewrite R in K; left; apply Same; exact K.
+Qed.
+
+(* Over a whole history without NewManagerFromHandle: an id that names a key now names the
+   SAME key object (same requirement) in every later state in which it occurs at all:
+   ids are never re-assigned, not even after Delete. *)
+Theorem id_denotes_same_key ops : forall s e0,
+  SInv s -> Forall (fun o => forall k, o <> OFromHandle k) ops ->
+  In e0 (ents (smgr s)) ->
+  forall e', In e' (ents (smgr (fst (run s ops)))) -> eid e' = eid e0 -> kp e' = kp e0.
+Proof.
+  induction ops as [|o ops IH]; intros s e0 HS Hops H0 e' He' Hid.
+  - simpl in He'. destruct HS as [[HE _] _].
+    assert (e' = e0).
+    { pose proof (ei_nodup _ HE) as ND. clear - ND H0 He' Hid.
+      induction (ents (smgr s)) as [|x l IHl]; simpl in *; [tauto|].
+      inversion ND as [|? ? Hn ND']; subst.
+      destruct H0 as [->|H0], He' as [->|He']; auto.
+      - exfalso. apply Hn. rewrite <- Hid. apply in_map. exact He'.
+      - exfalso. apply Hn. rewrite Hid. apply in_map. exact H0. }
+    subst; reflexivity.
+  - rewrite run_cons in He'. cbn [fst] in He'. inversion Hops as [|? ? Ho Hops']; subst.
+    (* strengthen: track the set of entries with id0 through the first step *)
+    pose proof (step_inv s o HS) as HS1.
+    assert (Hu0 : In (eid e0) (unavail (smgr s))) by (destruct HS as [[_ HU] _]; apply HU; exact H0).
+    assert (Hu1 : In (eid e0) (unavail (smgr (fst (step s o))))) by (apply (unavail_grows s o Ho); exact Hu0).
+    (* is there an entry with id0 after the first step? *)
+    destruct (find_entry (ents (smgr (fst (step s o)))) (eid e0)) as [e1|] eqn:F.
+    + apply find_entry_In in F. destruct F as [F1 F2].
+      assert (K1 : kp e1 = kp e0).
+      { destruct (step_entry_origin s o e1 Ho F1) as [(e & A & B)|N].
+        - rewrite <- B. destruct HS as [[HE _] _].
+          assert (eid e = eid e0) by (unfold kp in B; inversion B; congruence).
+          assert (e = e0).
+          { pose proof (ei_nodup _ HE) as ND. clear - ND H0 A H.
+            induction (ents (smgr s)) as [|x l IHl]; simpl in *; [tauto|].
+            inversion ND as [|? ? Hn ND']; subst.
+            destruct H0 as [->|H0], A as [->|A]; auto.
+            - exfalso. apply Hn. rewrite <- H. apply in_map. exact A.
+            - exfalso. apply Hn. rewrite H. apply in_map. exact H0. }
+          subst; reflexivity.
+        - exfalso. apply N. rewrite F2. exact Hu0. }
+      rewrite <- K1. apply (IH _ e1 HS1 Hops' F1 e' He'). rewrite Hid. symmetry. exact F2.
+    + (* the id is gone after the first step: it can never come back *)
+      exfalso.
+      assert (Gone : forall ops s1, SInv s1 -> Forall (fun o => forall k, o <> OFromHandle k) ops ->
+                 In (eid e0) (unavail (smgr s1)) -> ~ In (eid e0) (map eid (ents (smgr s1))) ->
+                 ~ In (eid e0) (map eid (ents (smgr (fst (run s1 ops)))))).
+      { clear. induction ops as [|o ops IH]; intros s1 HS1 Hops Hu Hn; [exact Hn|].
+        rewrite run_cons. cbn [fst]. inversion Hops as [|? ? Ho Hops']; subst.
+        apply IH; auto.
+        - apply step_inv; auto.
+        - apply (unavail_grows s1 o Ho); exact Hu.
+        - intros Hin. apply in_map_iff in Hin. destruct Hin as (e1 & A & B).
+          destruct (step_entry_origin s1 o e1 Ho B) as [(e & C & D)|N].
+          + apply Hn. apply in_map_iff. exists e. split; auto.
+            unfold kp in D. inversion D. congruence.
+          + apply N. rewrite A. exact Hu. }
+      apply (Gone ops _ HS1 Hops' Hu1 (find_entry_None _ _ F)).
+      rewrite <- Hid. apply in_map. exact He'.
+Qed.
+
 (* non-vacuity: a history in which every kind of step occurs, evaluated *)
 Example history_example :
   let ops := [OHandle; OAdd TmplTink; OHandle; OAddOpts None 7 [KStatus Disabled]; OSetPrimary 11;
